@@ -731,6 +731,71 @@ theorem tree_failure_frame (env : Env) (hlib : GoodLib env) (n : Nat) (name : St
   (estmt_all env hlib n).tag name kwargs only dyn body ctx w e w' hd hb hc hw h
 
 
+
+/-! ### histories of renders -/
+
+/-- one top-level render request: a `{% component %}` tag of the fragment and the Context it is rendered with -/
+structure Req where
+  name : Str
+  kwargs : List (Str × Expr)
+  only : Bool
+  body : List Node
+  ctx : Ctx
+
+def Req.Good (env : Env) (q : Req) : Prop :=
+  isDynName q.name = false ∧ gbody q.body = true ∧ ctxFree q.ctx = true ∧ isExtracting q.ctx = false ∧
+    parentOf (if q.only || env.isolated then isolatedCopy q.ctx else q.ctx) = none
+
+/-- the world after a history of renders, whatever each of them did (returned or raised) -/
+def runHist (env : Env) (fuel : Nat) : List Req → World → World
+  | [], w => w
+  | q :: rest, w => runHist env fuel rest ((renderCompTag env fuel q.name q.kwargs q.only false q.body q.ctx).run.run w).2
+
+/-- did every render of the history return? -/
+def allReturn (env : Env) (fuel : Nat) : List Req → World → Prop
+  | [], _ => True
+  | q :: rest, w =>
+    (∃ toks, ((renderCompTag env fuel q.name q.kwargs q.only false q.body q.ctx).run.run w).1 = .ok toks) ∧
+      allReturn env fuel rest ((renderCompTag env fuel q.name q.kwargs q.only false q.body q.ctx).run.run w).2
+
+theorem frame_of_run (env : Env) (hlib : GoodLib env) (fuel : Nat) (q : Req) (hq : q.Good env) (w : World) (hw : WInv w) :
+    Frame w ((renderCompTag env fuel q.name q.kwargs q.only false q.body q.ctx).run.run w).2 := by
+  obtain ⟨hd, hb, hc, _, _⟩ := hq
+  rcases hr : (renderCompTag env fuel q.name q.kwargs q.only false q.body q.ctx).run.run w with ⟨r, w'⟩
+  cases r with
+  | error e => exact tree_failure_frame env hlib fuel q.name q.kwargs q.only false q.body q.ctx w w' e hd hb hc hw hr
+  | ok toks => exact Frame.of_bal hw ((stmt_all env hlib fuel).tag q.name q.kwargs q.only false q.body q.ctx w toks w' hd hb hc hw hr)
+
+/-- **Any history of renders — returning and raising mixed in any order — keeps the world well-formed and never touches
+an entry that existed before the history began.** -/
+theorem history_frame (env : Env) (hlib : GoodLib env) (fuel : Nat) : ∀ (qs : List Req) (w : World),
+    (∀ q ∈ qs, q.Good env) → WInv w → Frame w (runHist env fuel qs w)
+  | [], w, _, hw => Frame.refl hw
+  | q :: rest, w, hq, hw => by
+    have h1 := frame_of_run env hlib fuel q (hq q (List.mem_cons_self ..)) w hw
+    exact h1.trans (history_frame env hlib fuel rest _ (fun x hx => hq x (List.mem_cons_of_mem _ hx)) (h1.winv hw))
+
+/-- **A history in which every render returned leaves every registry exactly as it was** (lookup for lookup), however
+many renders, however deep their trees. -/
+theorem history_all_returned (env : Env) (hlib : GoodLib env) (fuel : Nat) : ∀ (qs : List Req) (w : World),
+    (∀ q ∈ qs, q.Good env) → WInv w → allReturn env fuel qs w →
+    (∀ k, alGet k (runHist env fuel qs w).ctxCache = alGet k w.ctxCache) ∧
+    (∀ k, alGet k (runHist env fuel qs w).rendererCache = alGet k w.rendererCache) ∧
+    (∀ k, alGet k (runHist env fuel qs w).childAttrs = alGet k w.childAttrs)
+  | [], w, _, _, _ => ⟨fun _ => rfl, fun _ => rfl, fun _ => rfl⟩
+  | q :: rest, w, hq, hw, hall => by
+    obtain ⟨⟨toks, hok⟩, hrest⟩ := hall
+    obtain ⟨hd, hb, hc, hext, hpar⟩ := hq q (List.mem_cons_self ..)
+    rcases hr : (renderCompTag env fuel q.name q.kwargs q.only false q.body q.ctx).run.run w with ⟨r, w'⟩
+    rw [hr] at hok hrest
+    simp only at hok
+    subst hok
+    obtain ⟨hbal, _⟩ := tree_root_tag env hlib fuel q.name q.kwargs q.only false q.body q.ctx w w' toks hd hb hc hw hext hpar hr
+    have hw' := hw.step hbal
+    obtain ⟨i1, i2, i3⟩ := history_all_returned env hlib fuel rest w' (fun x hx => hq x (List.mem_cons_of_mem _ hx)) hw' hrest
+    simp only [runHist, hr]
+    exact ⟨fun k => (i1 k).trans (hbal.cc k (by simp)), fun k => (i2 k).trans (hbal.rc k (by simp)), fun k => (i3 k).trans (hbal.ca k)⟩
+
 /-- the three-level example with a fault injected into its fourth callback (`get_context_data` of a leaf): the render
 raises the injected error; entries of the unfinished instances stay (the listed finding), all under ids of this render -/
 def exFailSummary : Bool :=
